@@ -23,7 +23,13 @@ pub fn cfg_name() -> &'static str {
         "cfg-arb"
     } else {
         match (cfg!(feature = "g"), cfg!(feature = "l"), cfg!(feature = "t")) {
-            (false, false, false) => "cfg-000",
+            (false, false, false) => {
+                if cfg!(debug_assertions) {
+                    "cfg-000"
+                } else {
+                    "cfg-rel"
+                }
+            }
             (false, false, true) => "cfg-001",
             (false, true, false) => "cfg-010",
             (false, true, true) => "cfg-011",
